@@ -3,18 +3,24 @@
 
   `fix17 v`: the fragment — scalars with no coercer (no processor, or one built-in processor on a string
   validator) or with their default coercer and no processor, equality / None / always-valid / is-dict
-  validators, lists, uniform tuples and n-tuples without container predicates or whole-object check,
-  optionals, Maybe, user-written wrappers and Lazy (through the environment), nested to any depth.
+  validators, lists, sets, uniform tuples and n-tuples without container predicates or whole-object
+  check, maps without container predicates, DictValidatorAny / TypedDictValidator (string keys, any
+  requiredness, either unknown-key policy, any whole-object check), DataclassValidator /
+  NamedTupleValidator whose fields are all required (a default is used "on trust" and need not be a
+  fixed point), optionals, Maybe, user-written wrappers and Lazy (through the environment), nested to
+  any depth.
   For every such tree, every input and every amount of fuel: if the validator returns `Valid w`, then
   validating `w` returns `Valid w`.
 
   Not in the fragment, and why: container predicates (finding D22: they are evaluated on the coerced
   input, not the payload), unions (finding D25: an earlier variant may take the payload over; see
-  `C17_union_fixed_partial`), sets / maps / records (decided by correspondence and oracle only),
-  `KeyNotRequired` (its payload `Just w` is not an input of the inner validator).
+  `C17_union_fixed_partial`), `RecordValidator` (its payload is whatever `into` returns, not a dict),
+  record coercers, class records with defaulted fields, `KeyNotRequired` (its payload `Just w` is not
+  an input of the inner validator).
 -/
 import KodaModel.Properties.C07
 import KodaModel.Properties.C17Union
+import KodaModel.Properties.C17Cont
 
 namespace Koda
 
@@ -34,6 +40,49 @@ def isDflt17 : Option CoerceK → Bool
   | some .dflt => true
   | _ => false
 
+/-- the declared keys are the field names -/
+def keyNamesB : List PyVal → List String → Bool
+  | [], [] => true
+  | .str s :: ks, n :: ns => s == n.toList.map Char.toNat && keyNamesB ks ns
+  | _, _ => false
+
+theorem keyNamesB_eq : ∀ (ks : List PyVal) (ns : List String), keyNamesB ks ns = true → ks = ns.map keyStr
+  | [], [], _ => rfl
+  | [], _ :: _, h => by simp [keyNamesB] at h
+  | .str s :: ks, n :: ns, h => by
+    simp only [keyNamesB, Bool.and_eq_true, beq_iff_eq] at h
+    simp only [List.map_cons, keyStr, List.cons.injEq, PyVal.str.injEq]
+    exact ⟨h.1, keyNamesB_eq ks ns h.2⟩
+  | .str _ :: _, [], h => by simp [keyNamesB] at h
+  | .none :: _, _, h => by simp [keyNamesB] at h
+  | .bool _ :: _, _, h => by simp [keyNamesB] at h
+  | .int _ :: _, _, h => by simp [keyNamesB] at h
+  | .float _ :: _, _, h => by simp [keyNamesB] at h
+  | .bytes _ :: _, _, h => by simp [keyNamesB] at h
+  | .decimal _ :: _, _, h => by simp [keyNamesB] at h
+  | .uuid _ :: _, _, h => by simp [keyNamesB] at h
+  | .date _ :: _, _, h => by simp [keyNamesB] at h
+  | .datetime _ _ :: _, _, h => by simp [keyNamesB] at h
+  | .list _ _ :: _, _, h => by simp [keyNamesB] at h
+  | .tuple _ _ :: _, _, h => by simp [keyNamesB] at h
+  | .set _ _ :: _, _, h => by simp [keyNamesB] at h
+  | .dict _ _ :: _, _, h => by simp [keyNamesB] at h
+  | .just _ _ :: _, _, h => by simp [keyNamesB] at h
+  | .nothing :: _, _, h => by simp [keyNamesB] at h
+  | .inst .. :: _, _, h => by simp [keyNamesB] at h
+  | .sub _ _ :: _, _, h => by simp [keyNamesB] at h
+
+/-- record configurations of the fragment (`n` = number of child validators) -/
+def recFix (cfg : RecCfg) (n : Nat) : Bool :=
+  keysOKb cfg.keys && n == cfg.keys.length && cfg.keys.length == cfg.reqs.length &&
+  (match cfg.kind with
+   | .dictAny => true
+   | .typeddict => cfg.coerce.isNone
+   | .dataclass | .namedtuple =>
+     cfg.coerce.isNone && keyNamesB cfg.keys cfg.fieldNames && cfg.fieldNames.length == cfg.defaults.length &&
+       cfg.reqs.all id
+   | .record => false)
+
 def plainNone : V → Bool
   | .noneV _ none => true
   | _ => false
@@ -52,9 +101,9 @@ def fix17 : V → Bool
   | .maybe _ inner => fix17 inner
   | .lazy _ _ => true
   | .user _ inner => fix17 inner
-  | .set .. => false
-  | .map .. => false
-  | .record .. => false
+  | .set _ item ps aps c => ps.isEmpty && aps.isEmpty && c.isNone && fix17 item
+  | .map _ kv vv ps aps c => ps.isEmpty && aps.isEmpty && c.isNone && fix17 kv && fix17 vv
+  | .record _ cfg vs => recFix cfg vs.length && fix17L vs
   | .union .. => false
   | .knr .. => false
 termination_by structural v => v
@@ -357,9 +406,44 @@ theorem C17_tree_partial (o : Oracle) (ho : OracleTyped o) (env : Nat → V) (he
         obtain ⟨rfl, _⟩ := h
         obtain ⟨t', ht'⟩ := ih inner x w u hf hv
         exact ⟨Ev.uv vid m :: t', by simp [ht']⟩
-    | set vid item ps aps c => simp [fix17] at hf
-    | map vid kv vv ps aps c => simp [fix17] at hf
-    | record vid cfg vs => simp [fix17] at hf
+    | set vid item ps aps c =>
+      simp only [fix17, Bool.and_eq_true, List.isEmpty_iff, Option.isNone_iff_eq_none] at hf
+      obtain ⟨⟨⟨rfl, rfl⟩, rfl⟩, hfi⟩ := hf
+      simp only [run] at h ⊢
+      obtain ⟨ws, rfl, hws⟩ := seqStep_set_valid_inv o m vid _ x w t h
+      exact C17_set_fixed o m vid _ ws (fun w' hw' => by
+        obtain ⟨hh, x', u, hx'⟩ := hws w' hw'
+        exact ⟨hh, ih item x' w' u hfi hx'⟩)
+    | map vid kv vv ps aps c =>
+      simp only [fix17, Bool.and_eq_true, List.isEmpty_iff, Option.isNone_iff_eq_none] at hf
+      obtain ⟨⟨⟨⟨rfl, rfl⟩, rfl⟩, hfk⟩, hfv⟩ := hf
+      simp only [run] at h ⊢
+      exact C17_map_fixed o m vid _ _ x w t h (fun k kw u hk => ih kv k kw u hfk hk)
+        (fun v vw u hv => ih vv v vw u hfv hv)
+    | record vid cfg vs =>
+      simp only [fix17, recFix, Bool.and_eq_true, beq_iff_eq] at hf
+      obtain ⟨⟨⟨⟨hkeys, hl1⟩, hl2⟩, hkind⟩, hfs⟩ := hf
+      simp only [run] at h ⊢
+      have hfix : ∀ ev ∈ vs.map (run o env m n), ∀ x w u, ev x = some (.valid w, u) →
+          ∃ u', ev w = some (.valid w, u') := by
+        intro ev hev x' w' u hx'
+        obtain ⟨f, hfm, rfl⟩ := List.mem_map.1 hev
+        exact ih f x' w' u (fix17L_mem hfs f hfm) hx'
+      have hlen : (vs.map (run o env m n)).length = cfg.keys.length := by simpa using hl1
+      cases hk : cfg.kind with
+      | record => simp [hk] at hkind
+      | dictAny => exact C17_dictrecord_fixed o m vid cfg _ x w t (.inl hk) hkeys hlen hl2 h hfix
+      | typeddict =>
+        simp only [hk, Option.isNone_iff_eq_none] at hkind
+        exact C17_dictrecord_fixed o m vid cfg _ x w t (.inr ⟨hk, hkind⟩) hkeys hlen hl2 h hfix
+      | dataclass =>
+        simp only [hk, Bool.and_eq_true, Option.isNone_iff_eq_none, beq_iff_eq] at hkind
+        obtain ⟨⟨⟨hco, hkn⟩, hdl⟩, hreq⟩ := hkind
+        exact C17_classrecord_fixed o m vid cfg _ x w t (.inl hk) hco hkeys (keyNamesB_eq _ _ hkn) hdl hreq hlen hl2 h hfix
+      | namedtuple =>
+        simp only [hk, Bool.and_eq_true, Option.isNone_iff_eq_none, beq_iff_eq] at hkind
+        obtain ⟨⟨⟨hco, hkn⟩, hdl⟩, hreq⟩ := hkind
+        exact C17_classrecord_fixed o m vid cfg _ x w t (.inr hk) hco hkeys (keyNamesB_eq _ _ hkn) hdl hreq hlen hl2 h hfix
     | union vid vs => simp [fix17] at hf
     | knr vid inner => simp [fix17] at hf
 
@@ -371,5 +455,23 @@ def exFix : V :=
       none (some .dflt) 9) [] [] none)
 
 example : fix17 exFix = true := by decide
+
+/-- `TypedDict('T', {'a': Set[int], 'b': NotRequired[Dict[str, Decimal]]})` and a two-field dataclass -/
+def exFix2 : V :=
+  .record 20 { kind := .typeddict, keys := [.str [97], .str [98]], reqs := [true, false], cls := default,
+               fieldNames := [], defaults := [], intoId := 0, into := fun _ => .none, oc := none, aoc := none,
+               failUnknown := true, coerce := none }
+    [.set 21 (.scalar 22 .int none [] [] []) [] [] none,
+     .map 23 (.scalar 24 .str none [] [] []) (.scalar 25 .decimal (some .dflt) [] [] []) [] [] none]
+
+example : fix17 exFix2 = true := by decide
+
+def exFix3 : V :=
+  .record 30 { kind := .dataclass, keys := [keyStr "x", keyStr "y"], reqs := [true, true], cls := ⟨1, 1, false, false⟩,
+               fieldNames := ["x", "y"], defaults := [none, none], intoId := 0, into := fun _ => .none, oc := none,
+               aoc := none, failUnknown := false, coerce := none }
+    [.scalar 31 .int none [] [] [], exFix2]
+
+example : fix17 exFix3 = true := by decide
 
 end Koda
